@@ -54,7 +54,8 @@ CHECKS = {
         "technique": "property-based testing (rapid): generated batch items rendered by independent binary/XML/JSON writers, dispatch compared with pinned operation/object/attribute tables, byte-identity of re-encoding",
         "level_text": "Generated-input exploration over operation codes (27 implemented, 16 named-only, arbitrary 32-bit) x direction x three encodings: the decoded payload's Go type must be the pinned one and report the same operation, objects and standard attributes must have their pinned types, unknown operations/attributes must survive as opaque TTLV whose re-encoding equals the reference bytes, unknown object types must be rejected.",
         "level_note": "Trusts pins/data/{ops,objects,attributes}.json and the independent writers in harness/ttlvref; inputs bounded as in C01.",
-        "jobs": [rapid("codec", "TestC06Dispatch", 6000, 40000), rapid("codec", "TestC06UnknownObjectType", 2000, 20000, shards=4)],
+        "jobs": [rapid("codec", "TestC06Dispatch", 6000, 40000), rapid("codec", "TestC06UnknownObjectType", 2000, 20000, shards=4),
+                 rapid("codec", "TestC06RuntimeRegistration", 1500, 10000, shards=4)],
         "assumptions": ["a response item with operation 0 has no payload (outside the domain)", "tag 0 excluded from opaque payloads"],
     },
     "C08": {
